@@ -757,6 +757,12 @@ func (g *gramInterp) localStringValues(call *ast.CallExpr) []string {
 		return false
 	}
 	add := func(e ast.Expr) {
+		// []byte("…") of a constant is that constant
+		if conv, isCall := core.Unparen(e).(*ast.CallExpr); isCall && len(conv.Args) == 1 {
+			if tv, isT := info.Types[conv.Fun]; isT && tv.IsType() {
+				e = core.Unparen(conv.Args[0])
+			}
+		}
 		if s, isConst := constString(info, e); isConst {
 			vals[s] = true
 		} else {
